@@ -319,7 +319,7 @@ func ruleF8c(c *Ctx) {
 			case !a && b:
 				c.check(!res, "F8c", key, c.L.Pos(call.Pos()), "when only b has the preferred property, b must win (return false)")
 			default:
-				c.ok("F8c", key, c.L.Pos(call.Pos()), "tie row")
+				c.check(!res, "F8c", key, c.L.Pos(call.Pos()), "when both candidates have (or both lack) the property the row must not prefer a (return false): a comparator that is true on a tie makes the choice depend on the order of the table rows")
 			}
 			return true
 		})
